@@ -328,7 +328,29 @@ func scLife() Scenario {
 	return sc
 }
 
+// S-poor: bank transfers that FAIL. PX holds 12uakt: enough for one deployment deposit (10) or two bid deposits (5), never
+// for all it asks for; every request it cannot pay for must be refused without leaving a record behind.
+func scPoor() Scenario {
+	sc := Scenario{Name: "S-poor", GP: GenesisParams{DeploymentMinDeposit: 10, BidMinDeposit: 5, Funds: 1000, StartHeight: 5, PoorFunds: 12}}
+	sc.Preamble = []Action{aProvider("CreateProvider", "PX", nil, "none"), aProvider("CreateProvider", "P1", nil, "none"),
+		aCreateDeployment("T1", 1, 3, 3, 10, noReq)}
+	al := []Action{aNext(1), aNext(4),
+		aCreateDeployment("PX", 1, 1, 3, 10, noReq), aDeposit("PX", 1, 3), aDeposit("PX", 1, 2), aCloseDeployment("PX", 1),
+		aCreateDeployment("PX", 2, 1, 3, 10, noReq), aCreateDeployment("PX", 3, 1, 3, 13, noReq),
+	}
+	for g := uint32(1); g <= 3; g++ {
+		b := bidRef{"T1", 1, g, 1, "PX"}
+		al = append(al, aCreateBid(b, 2, 5), aBidOp("CloseBid", b))
+	}
+	al = append(al, aCreateBid(bidRef{"T1", 1, 1, 1, "PX"}, 2, 13)) // a deposit above everything PX owns
+	al = append(al, aBidOp("CreateLease", bidRef{"T1", 1, 1, 1, "PX"}), aBidOp("WithdrawLease", bidRef{"T1", 1, 1, 1, "PX"}), aBidOp("CloseLease", bidRef{"T1", 1, 1, 1, "PX"}))
+	al = append(al, aCreateBid(bidRef{"PX", 1, 1, 1, "P1"}, 2, 5), aBidOp("CreateLease", bidRef{"PX", 1, 1, 1, "P1"}), aCloseDeployment("T1", 1))
+	sc.Alphabet = al
+	return sc
+}
+
 var scenarioTable = map[string]func() Scenario{
+	"S-poor":   scPoor,
 	"S-escrow": scEscrow,
 	"S-leased": scLeased,
 	"S-life":   scLife,
